@@ -1,5 +1,8 @@
 import MobiusModel.Chat
+import MobiusModel.StalledDelivery
 import MobiusModel.Generated.Consts
+import MobiusModel.Generated.Outbox
+import MobiusModel.Generated.SendShape
 /-!
   C12 — Chat reaches exactly its audience.
 
@@ -394,6 +397,48 @@ theorem stale_entry_reached_newcomer_before_fix :
     ⟨2, 7, [], [], [0, 0x70, 0, 0, 0, 0, 0, 0], [0x6e], [0, 0], 0, [], true⟩ (by decide) rfl
   cases this
 
+-- ------------------------------------------------------------------ wave d: recipients that do not read
+
+/-- **A chat history reaches every READING member of its audiences exactly once, whatever the others do.**
+    `chatSends` are the goroutines `processOutbox` starts for a chat history (every output of every handler,
+    routed through the client table).  Under ANY schedule of their writes and ANY pattern of connections that
+    stop / resume reading (`evs`: any event list that starts exactly those goroutines, in any order), once
+    nothing deliverable is pending, a connection that reads has been handed exactly the transactions the
+    history addresses to it, each once. -/
+theorem reading_member_receives_exactly_its_traffic (es : List ChatEv) (evs : List (NetEv Out)) (k : Nat)
+    (hs : (Net.spawned evs).Perm (chatSends ChatWorld.init es))
+    (hq : (Net.run {} evs).Quiet) (hk : (Net.run {} evs).reads k = true) :
+    ((Net.run {} evs).inbox k).Perm (((chatSends ChatWorld.init es).filter (·.to == k)).map (·.item)) :=
+  (Net.reader_inbox_exact evs k hq hk).trans ((hs.filter (·.to == k)).map (·.item))
+
+/-- **Delivery to each recipient is independent**: the lines a reading client receives do not depend on
+    whether another recipient ever reads — two runs of the same history's goroutines, one in which some
+    connections never read and one in which everybody reads, hand `k` the same transactions. -/
+theorem delivery_independent_of_other_recipients (evs evs' : List (NetEv Out)) (k : Nat)
+    (hs : (Net.spawned evs).Perm (Net.spawned evs'))
+    (hq : (Net.run {} evs).Quiet) (hk : (Net.run {} evs).reads k = true)
+    (hq' : (Net.run {} evs').Quiet) (hk' : (Net.run {} evs').reads k = true) :
+    ((Net.run {} evs).inbox k).Perm ((Net.run {} evs').inbox k) :=
+  Net.inbox_independent_of_non_readers evs evs' k hs hq hk hq' hk'
+
+/-- **Non-readers cannot hold delivery up**: from every state of the dispatcher a schedule of writes alone
+    (no event of the stalled connections) reaches a state in which nothing deliverable is pending. -/
+theorem non_readers_cannot_block_delivery (n : Net Out) :
+    ∃ fs : List Nat, (n.run (fs.map .fire)).Quiet ∧ (n.run (fs.map .fire)).stalled = n.stalled :=
+  n.exists_quiet_schedule
+
+/-- Nothing is lost or duplicated on the way, under every schedule (also for the connections that do not read:
+    their transactions stay pending and are handed over when they read again). -/
+theorem nothing_lost_nothing_duplicated (evs : List (NetEv Out)) :
+    ((Net.run {} evs).delivered ++ (Net.run {} evs).pending).Perm (Net.spawned evs) := by
+  simpa using Net.conservation ({} : Net Out) evs
+
+/-- The contrast (what the regenerated facts below exclude): with ONE server-wide lock held across the
+    `Write`, as soon as a goroutine blocks on a non-reader no schedule hands anything to anybody. -/
+theorem server_wide_lock_would_starve_everybody (l : LockNet Out) (s : Send Out) (h : l.holder = some s) (fs : List Nat) :
+    fs.foldl LockNet.fire l = l :=
+  LockNet.stuck l s h fs
+
 -- ------------------------------------------------------------------ replies (used by C14 as well)
 
 /-- Every chat request yields at most one reply-flagged transaction; it is addressed to the requester
@@ -492,6 +537,16 @@ theorem generated_chat_fields :
       "FieldOptions", "FieldChatID", "FieldChatSubject", "FieldUsernameWithInfo"].map fun n => Generated.fieldIDs.lookup n) =
     [some 100, some 101, some 102, some 103, some 104, some 109, some 112, some 113, some 114, some 115, some 300] := by decide
 
+/-- `sendTransaction` makes exactly the lookup, the serialisation and ONE write; besides that write nothing
+    in it can block (no mutex, condition variable, semaphore, channel operation, nothing deferred), and
+    `processOutbox` starts a goroutine per transaction and itself only waits for the outbox: the shape
+    `Net.step` models (each send its own process, enabled by its own connection alone).  A lock around the
+    write is `LockNet` (`server_wide_lock_would_starve_everybody`). -/
+theorem generated_send_holds_no_lock :
+    Generated.sendCalls = ["ClientMgr.Get", "io.ReadAll", "Connection.Write"] ∧
+    Generated.sendBlocking = [] ∧ Generated.sendDeferred = [] ∧
+    Generated.dispatchSpawns = true ∧ Generated.dispatchBlocking = ["recv s.outbox"] := by decide
+
 -- ------------------------------------------------------------------ non-vacuity
 
 private def demoAccess : Bytes := [0x00, 0x70, 0, 0, 0, 0, 0, 0]   -- read, send, open chat
@@ -514,5 +569,22 @@ example : chatText [0x62, 0x6f, 0x62] false [0x68, 0x69] =
   decide +kernel
 -- an invalid UTF-8 byte counts as one rune and is copied through
 example : pad13 [0xff, 0xc3, 0xa9] = List.replicate 11 0x20 ++ [0xff, 0xc3, 0xa9] := by decide +kernel
+
+-- wave d: users 1 and 2 are sent a line each (connections 0 and 1); connection 1 does not read.  Whatever the
+-- schedule, connection 0 is handed its line; with a server-wide lock and the blocked write first, nothing moves.
+private def twoSends : List (NetEv Nat) := [.stall 1, .spawn ⟨1, 10⟩, .spawn ⟨0, 20⟩, .fire 0, .fire 1, .fire 0]
+example : (Net.run {} twoSends).inbox 0 = [20] ∧ (Net.run {} twoSends).pending.map (·.to) = [1] := by decide
+example : (Net.run {} twoSends).Quiet := by
+  intro s hs
+  have : (Net.run {} twoSends).pending = [⟨1, 10⟩] := by decide
+  rw [this] at hs; simp at hs; subst hs; decide
+example : (Net.run {} (twoSends ++ [.resume 1, .fire 0])).inbox 1 = [10] := by decide
+example : ([0, 0, 1, 0].foldl LockNet.fire ({ net := { pending := [⟨1, 10⟩, ⟨0, 20⟩], stalled := [1] } } : LockNet Nat)).net.delivered = [] := by
+  decide
+-- the goroutines of the demo history followed by a public line of user 3: (connection, type) — the line (106) goes to
+-- connections 0 and 1
+example : (chatSends ChatWorld.init (demo ++ [.send 3 11 none none [0x68, 0x69]])).map (fun s => (s.to, s.item.ty)) =
+    [(1, 113), (0, 0), (0, 117), (1, 0), (0, 117), (1, 117), (2, 0), (0, 118), (1, 118), (0, 106), (1, 106)] := by
+  decide +kernel
 
 end Mobius.C12
